@@ -167,6 +167,13 @@ def handmade():
         (1, H(S, E('ball_starting'), R('end_ball'))),
         (1, H(S, E('ball_will_start'), R('setbip', 2), E('ball_starting'), R('setbip', 0))),
         (4, H(S, E('ball_started'), R('setbip', 3), R('drain', 1))),
+        # a ball ended by request whose ball never drains (ball search gave up, the ball sits in a device), then several balls in
+        # play on the NEXT ball and one of them drains: the count goes down by exactly one
+        (1, H(S, E('ball_started'), R('end_ball'), E('ball_started', occ=2), R('setbip', 2), R('drain', 1, top=True), R('drain', 1, top=True))),
+        (4, H(S, E('ball_started'), R('end_ball'), E('ball_started', occ=2), R('setbip', 3), R('drain', 1, top=True), R('drain', 1, top=True),
+              R('drain', 1, top=True))),
+        (2, H(S, E('ball_started'), R('add'), R('end_ball', top=True), R('end_ball', top=True), E('ball_started', occ=3), R('setbip', 2),
+              R('drain', 1, top=True))),
         # requests while no ball is live may be ignored
         (1, H(S, E('ball_started'), R('award'), E('ball_ended'), R('end_ball'), R('drain', 1))),
         (1, H(S, E('player_turn_starting', hold=True), R('end_ball', top=True), R('release', name='player_turn_starting', top=True))),
